@@ -1,0 +1,77 @@
+//go:build verif
+
+package genql
+
+// With the `verif` tag and GENQL_VERIF_TRACE set, the test suite records what its own New / Exec
+// calls do: one NDJSON line per New (document, query text, options, outcome), per pipeline stage of
+// the top-level query (the verifStage hook) and per Exec. A verification harness validates the
+// recording against its specification. Without the tag this file is not compiled; without the
+// variable nothing is installed.
+
+import (
+	"encoding/json"
+	"os"
+	"sync"
+	"testing"
+)
+
+func TestMain(m *testing.M) {
+	path := os.Getenv("GENQL_VERIF_TRACE")
+	if path == "" {
+		os.Exit(m.Run())
+	}
+	file, err := os.Create(path)
+	if err != nil {
+		panic(err)
+	}
+	var mu sync.Mutex
+	enc := json.NewEncoder(file)
+	ids := map[*Query]int{}
+	next := 0
+	emit := func(line map[string]any) {
+		if err := enc.Encode(line); err != nil {
+			// a document that JSON cannot hold (a func, a channel, NaN): the call is listed without it
+			enc.Encode(map[string]any{"ev": line["ev"], "id": line["id"], "unencodable": err.Error()})
+		}
+	}
+	errText := func(err error) any {
+		if err == nil {
+			return nil
+		}
+		return err.Error()
+	}
+	VerifNew = func(query *Query, data Map, text string, options *Options, err error) {
+		mu.Lock()
+		defer mu.Unlock()
+		next++
+		if query != nil {
+			ids[query] = next
+		}
+		wrapped, postgres, arrays, constants, vars := VerifOptionFlags(options)
+		emit(map[string]any{"ev": "new", "id": next, "test": currentTest(), "sql": text, "doc": data, "err": errText(err),
+			"opts": map[string]any{"wrapped": wrapped, "pg": postgres, "arr": arrays, "constants": constants != nil, "vars": vars != nil,
+				"completed": options.completed != nil, "errors": options.errors != nil}})
+	}
+	VerifStage = func(query *Query, stage string, rows any) {
+		mu.Lock()
+		defer mu.Unlock()
+		if id, ok := ids[query]; ok {
+			emit(map[string]any{"ev": "stage", "id": id, "st": stage, "rows": rows})
+		}
+	}
+	VerifExec = func(query *Query, result []any, err error) {
+		mu.Lock()
+		defer mu.Unlock()
+		if id, ok := ids[query]; ok {
+			emit(map[string]any{"ev": "exec", "id": id, "rows": result, "err": errText(err)})
+		}
+	}
+	code := m.Run()
+	mu.Lock()
+	file.Close()
+	mu.Unlock()
+	os.Exit(code)
+}
+
+// currentTest is best effort: the recorder has no *testing.T; the harness does not rely on it.
+func currentTest() string { return "" }
